@@ -4,6 +4,7 @@ import fam_region
 import fam_feat
 import fam_alpha
 import fam_textio
+import fam_cache
 
 
 def lookup(prop):
@@ -19,4 +20,6 @@ def lookup(prop):
         return fam_alpha.run
     if prop in ("C16", "C17"):
         return fam_textio.run
+    if prop == "C13":
+        return fam_cache.run
     return None
